@@ -83,19 +83,25 @@ func writeTable(cfg tablegen.Cfg, min, max uint64, refs []refdb.Ref, logs []refd
 // mkTable builds a table of n refs and n log entries. With tag "big" the log messages are
 // incompressible, so that log blocks deflate to more than the block size (the reader's retry path).
 func mkTable(cfg tablegen.Cfg, n int, ui uint64, tag string) ([]byte, []string, []byte) {
+	return mkTableW(cfg, n, ui, tag, 3, 1)
+}
+
+// mkTableW: names carry a width-digit counter; only every stride-th ref has a log entry, and the
+// shared object id / peeled pattern repeats with period 4*stride and 5*stride.
+func mkTableW(cfg tablegen.Cfg, n int, ui uint64, tag string, width, stride int) ([]byte, []string, []byte) {
 	hs := cfg.HashSize()
 	var refs []refdb.Ref
 	var logs []refdb.Log
 	var names []string
 	shared := tablegen.Oid("shared", hs)
 	for i := 0; i < n; i++ {
-		nm := fmt.Sprintf("refs/heads/b%03d", i)
+		nm := fmt.Sprintf("refs/heads/b%0*d", width, i)
 		names = append(names, nm)
 		r := refdb.Ref{Name: nm, UpdateIndex: ui, Kind: 1, Value: tablegen.Oid(tag+nm, hs)}
-		if i%4 == 1 {
+		if i%(4*stride) == 1 {
 			r.Value = shared
 		}
-		if i%5 == 2 {
+		if i%(5*stride) == 2 {
 			r.Kind, r.Peeled = 2, shared
 		}
 		refs = append(refs, r)
@@ -103,7 +109,9 @@ func mkTable(cfg tablegen.Cfg, n int, ui uint64, tag string) ([]byte, []string, 
 		if tag == "big" {
 			msg = tablegen.Keystream(nm, 60) + "\n"
 		}
-		logs = append(logs, refdb.Log{Name: nm, UpdateIndex: ui, Old: tablegen.Oid("o", hs), New: tablegen.Oid(tag+"n"+nm, hs), Who: "w", Email: "e", Time: 100, TZ: 0, Message: msg})
+		if i%stride == 0 || i < 4 {
+			logs = append(logs, refdb.Log{Name: nm, UpdateIndex: ui, Old: tablegen.Oid("o", hs), New: tablegen.Oid(tag+"n"+nm, hs), Who: "w", Email: "e", Time: 100, TZ: 0, Message: msg})
+		}
 	}
 	return writeTable(cfg, ui, ui, refs, logs), names, shared
 }
@@ -126,6 +134,12 @@ func fixtures() []*fixture {
 		}
 		d, names, oid := mkTable(f.cfg, 14, 3, tag)
 		out = append(out, &fixture{Name: f.name, Data: [][]byte{d}, Cfg: f.cfg, File: f.file, names: names, oid: oid, hs: f.cfg.HashSize()})
+	}
+	{
+		// three 128 KiB ref blocks behind a file: reads above 64 KiB, several blocks apart
+		c := tablegen.Cfg{BlockSize: 1 << 17}
+		d, names, oid := mkTableW(c, 12000, 3, "t", 5, 200)
+		out = append(out, &fixture{Name: "reader/file-backed-128k-blocks", Data: [][]byte{d}, Cfg: c, File: true, names: names, oid: oid, hs: 20})
 	}
 	cfg := tablegen.Cfg{BlockSize: 128}
 	var data [][]byte
@@ -356,22 +370,52 @@ type comboResult struct {
 }
 
 type frozenMon struct {
-	sh      *shared
-	h0      uint64
-	enabled bool
+	sh *shared
+	h0 uint64
+	// mode 0: off. 1: the package has no synchronisation at all, so NO read may write to the shared
+	// object graph. 2: the package uses sync (but not sync/atomic): a write to the shared graph is
+	// legitimate only while the writing goroutine holds an exclusive lock (Mutex, RWMutex.Lock, the
+	// inside of Once.Do); the state is compared at every scheduling point, lock operation and call
+	// end, so each change is attributed to the one goroutine that ran since the previous comparison.
+	mode  int
+	depth map[int]int
 }
 
-func (m *frozenMon) check(w *mc.World, where string) {
-	if !m.enabled {
+func (m *frozenMon) check(w *mc.World, pid int, where string) {
+	if m.mode == 0 {
 		return
 	}
-	if h := m.sh.hash(); h != m.h0 {
-		w.Violate("C19", "frozen:shared-state-written-by-a-read@"+where, fmt.Sprintf("the shared object graph (or a package-level variable) changed during %s; with no synchronisation in the package two goroutines doing this race", where))
-		m.h0 = h
+	h := m.sh.hash()
+	if h == m.h0 {
+		return
+	}
+	m.h0 = h
+	if m.mode == 2 {
+		if m.depth[pid] > 0 {
+			return
+		}
+		w.Violate("C19", "frozen:shared-state-written-outside-any-lock@"+where, fmt.Sprintf("goroutine %d changed the shared object graph (or a package-level variable) during %s while holding no exclusive lock; two goroutines doing this race", pid, where))
+		return
+	}
+	w.Violate("C19", "frozen:shared-state-written-by-a-read@"+where, fmt.Sprintf("the shared object graph (or a package-level variable) changed during %s; with no synchronisation in the package two goroutines doing this race", where))
+}
+
+func (m *frozenMon) onSync(w *mc.World, pid int, kind, where string) {
+	switch kind {
+	case "mutex-lock", "rwmutex-lock":
+		m.check(w, pid, where)
+		m.depth[pid]++
+	case "mutex-unlock", "rwmutex-unlock":
+		m.check(w, pid, where)
+		if m.depth[pid] > 0 {
+			m.depth[pid]--
+		}
+	default:
+		m.check(w, pid, where)
 	}
 }
 
-func explore(f *fixture, progs []program, want [][]string, frozen bool) *comboResult {
+func explore(f *fixture, progs []program, want [][]string, frozen int) *comboResult {
 	res := &comboResult{}
 	var names []string
 	for _, p := range progs {
@@ -402,8 +446,18 @@ func explore(f *fixture, progs []program, want [][]string, frozen bool) *comboRe
 		}
 		w.Procs = nil
 		curShared = sh
-		fm := &frozenMon{sh: sh, enabled: frozen}
+		fm := &frozenMon{sh: sh, mode: frozen, depth: map[int]int{}}
 		fm.h0 = sh.hash()
+		if frozen == 2 {
+			where := func(p *mc.Proc) string {
+				if p.CallIdx < len(p.Prog) {
+					return strings.SplitN(p.Prog[p.CallIdx].Label, "#", 2)[0]
+				}
+				return "?"
+			}
+			w.BeforePoint = func(p *mc.Proc) { fm.check(w, p.ID, where(p)) }
+			w.OnSync = func(p *mc.Proc, kind string) { fm.onSync(w, p.ID, kind, where(p)) }
+		}
 		for pi, p := range progs {
 			pi := pi
 			st := &progState{}
@@ -423,7 +477,7 @@ func explore(f *fixture, progs []program, want [][]string, frozen bool) *comboRe
 						}()
 						out = step()
 					}()
-					fm.check(w, p.Name)
+					fm.check(w, pi, p.Name)
 					if si < len(want[pi]) && out != want[pi][si] {
 						w.Violate("C19", "results:differ-from-sequential@"+p.Name, fmt.Sprintf("%s: goroutine %d (%s) step %d returned %q, alone it returns %q", label, pi, p.Name, si, out, want[pi][si]))
 					}
@@ -435,7 +489,7 @@ func explore(f *fixture, progs []program, want [][]string, frozen bool) *comboRe
 		w.Atomic = false
 		return w
 	}
-	sc := &mc.Scenario{Name: label, Build: build, MaxPreempt: -1, Horizon: 4000, GlobalsHash: func() uint64 {
+	sc := &mc.Scenario{Name: label, Build: build, MaxPreempt: -1, Horizon: 4000, DeadlockProp: "C19", GlobalsHash: func() uint64 {
 		if curShared == nil {
 			return 0
 		}
@@ -513,7 +567,7 @@ func main() {
 	fx := fixtures()
 	ps := programs()
 	// is the frozen-state invariant applicable?
-	frozen := true
+	frozen := 1
 	var syncImports []string
 	if *bindRep != "" {
 		if b, err := os.ReadFile(*bindRep); err == nil {
@@ -522,7 +576,14 @@ func main() {
 			}
 			json.Unmarshal(b, &br)
 			syncImports = br.SyncImports
-			frozen = len(br.SyncImports) == 0
+			if len(br.SyncImports) > 0 {
+				frozen = 2 // lock-aware
+				for _, si := range br.SyncImports {
+					if strings.HasSuffix(si, ":sync/atomic") {
+						frozen = 0 // lock-free writes are legitimate: not decidable from the object graph
+					}
+				}
+			}
 		}
 	}
 	var jobs []job
@@ -723,10 +784,10 @@ func main() {
 		}
 		return n
 	}()
-	cov["frozen_state_invariant"] = map[string]interface{}{"evaluated": frozen, "sync_imports_in_package": syncImports}
+	cov["frozen_state_invariant"] = map[string]interface{}{"evaluated": frozen != 0, "mode": map[int]string{0: "off (package uses sync/atomic)", 1: "strict: no read may write to the shared object graph (package has no synchronisation)", 2: "lock-aware: the shared graph may change only while the writing goroutine holds an exclusive lock of the sync shim"}[frozen], "sync_imports_in_package": syncImports}
 	cov["race_detector_pass_supplementary"] = raceStatus
 	cov["distinct_outcomes_total"] = outcomes
-	cov["rule"] = "for each fixture (Reader over memory with 128-byte blocks, unaligned, file-backed sha256; Merged of three readers) every ordered pair of the 8 read programs and selected triples (thorough: all unordered triples without the long log scan) runs as goroutines sharing one object under the controlled scheduler, with scheduling points at every API call and every ReadBlock/ReadAt; ALL interleavings are explored (state cache on per-goroutine observation history + deep hash of the shared object). Non-trivial = every execution beyond the first of a combination (a different interleaving)"
+	cov["rule"] = "for each fixture (Reader over memory with 128-byte blocks, unaligned, file-backed sha256, file-backed with three 128 KiB blocks; Merged of three readers) every ordered pair of the 8 read programs and selected triples (thorough: all unordered triples without the long log scan) runs as goroutines sharing one object under the controlled scheduler, with scheduling points at every API call and every ReadBlock/ReadAt; ALL interleavings are explored (state cache on per-goroutine observation history + deep hash of the shared object). Non-trivial = every execution beyond the first of a combination (a different interleaving)"
 	cov["samples"] = []interface{}{fmt.Sprintf("%s: %s ‖ %s, all interleavings at ReadBlock granularity", fx[0].Name, ps[0].Name, ps[3].Name), fmt.Sprintf("%s: %s ‖ %s ‖ %s", fx[len(fx)-1].Name, ps[0].Name, ps[1].Name, ps[2].Name)}
 	cov["exhaustive"] = true
 	if *bindRep != "" {
@@ -739,7 +800,7 @@ func main() {
 	run.Assumptions = []string{
 		"observable half of C19 (results equal sequential; shared state never written by reads when the package has no synchronisation) is decided exhaustively at ReadBlock/API-call granularity",
 		"'no data race in the Go memory model' for writes that leave no trace in the object graph is not decidable by a cooperative scheduler; the race-detector pass is complementary sampling and is labelled as such (a report is a real race, silence is not evidence)",
-		"if the package imports sync or sync/atomic the frozen-state invariant is not evaluated (state may be legitimately mutated under synchronisation)",
+		"if the package imports sync, its primitives are replaced by shim/vsync: blocking operations are scheduling points with an enabledness condition (all acquisition orders explored, deadlock reported), and the frozen-state invariant becomes lock-aware (a change of the shared object graph is legitimate only while the changing goroutine holds an exclusive lock); if it imports sync/atomic the invariant is not evaluated; channels and sync.Cond are not modelled",
 	}
 	os.Exit(run.Finish())
 }
